@@ -81,8 +81,8 @@ theorem preserves (gs : Nat) (r : Rec) (pi f s : Nat)
   rw [hdecP] at hcyc hnd
   have hxp : r x = p := cycleOf_adjacent r L R x p hcyc
   have hxgs : x < gs := (hmem x).mp (by rw [hdecP]; simp)
-  have hpred1 : pred gs r p = x :=
-    pred_of_cycle gs r _ (hdecP ▸ hperm) hcyc x p hxgs hxp
+  have hpred1 : argsort gs r p = x :=
+    argsort_of_cycle gs r _ (hdecP ▸ hperm) hcyc x p hxgs hxp
   have hc1a := cycle_remove r L R x p hcyc hnd
   have hnd1' := nodup_remove (L := L ++ [x]) (R := R) (v := p) (by simpa using hnd)
   have hnd1 : (L ++ x :: R).Nodup := by simpa using hnd1'.1
@@ -105,12 +105,15 @@ theorem preserves (gs : Nat) (r : Rec) (pi f s : Nat)
   have hx2d : r1 x2 = d := cycleOf_adjacent r1 L2 R2 x2 d hc1
   have hx2gs : x2 < gs := ((hmem1 x2).mp (by simp)).1
   have hr1p : r1 p = p := by rw [← hr1]; simp [upd]
-  have hpred2 : pred gs r1 d = x2 := by
-    apply pred_eq gs r1 x2 d hx2gs hx2d
-    intro i hi hid
-    by_cases hip : i = p
-    · subst hip; rw [hr1p] at hid; exact absurd hid hpd
-    · exact cycleOf_inj r1 _ hc1 hnd1 ((hmem1 i).mpr ⟨hi, hip⟩) (by simp) (by rw [hid, hx2d])
+  have hpred2 : argsort gs r1 d = x2 := by
+    -- after the pickup is unlinked the array is still a permutation (the pickup is a fixed point)
+    have hpermP : (p :: (L2 ++ x2 :: d :: R2)).Perm (List.range gs) := by
+      rw [← hdecD, hfilt1]
+      have e : (L ++ x :: p :: R).Perm (p :: (L ++ x :: R)) := by
+        have := List.perm_middle (a := p) (l₁ := L ++ [x]) (l₂ := R)
+        simpa using this
+      exact e.symm.trans (hdecP ▸ hperm)
+    exact argsort_eq gs r1 (map_perm_of_cycle_fix gs r1 _ p hpermP hc1 hr1p) x2 d hx2gs hx2d
   have hc2 := cycle_remove r1 L2 R2 x2 d hc1 hnd1
   have hnd2' := nodup_remove (L := L2 ++ [x2]) (R := R2) (v := d) (by simpa using hnd1)
   have hnd2 : (L2 ++ x2 :: R2).Nodup := by simpa using hnd2'.1
